@@ -130,6 +130,31 @@ def _const_eval(node, module):
             return l**r
     if isinstance(node, ast.UnaryOp) and isinstance(node.op, ast.USub):
         return -_const_eval(node.operand, module)
+    if isinstance(node, ast.BinOp) and isinstance(node.op, ast.Mod):
+        l = _const_eval(node.left, module)
+        r = _const_eval(node.right, module)
+        if isinstance(l, str):
+            return l % r
+    if isinstance(node, ast.Tuple):
+        return tuple(_const_eval(e, module) for e in node.elts)
+    if isinstance(node, ast.JoinedStr):
+        out = []
+        for v in node.values:
+            if isinstance(v, ast.Constant):
+                out.append(str(v.value))
+            elif isinstance(v, ast.FormattedValue) and v.conversion == -1 and v.format_spec is None:
+                out.append(str(_const_eval(v.value, module)))
+            else:
+                raise ValueError("f-string part")
+        return "".join(out)
+    if isinstance(node, ast.Call) and isinstance(node.func, ast.Attribute) and node.func.attr == "format" and not node.keywords:
+        base = _const_eval(node.func.value, module)
+        if isinstance(base, str):
+            return base.format(*[_const_eval(a, module) for a in node.args])
+    if isinstance(node, ast.Call) and isinstance(node.func, ast.Attribute) and node.func.attr == "join" and len(node.args) == 1 and isinstance(node.args[0], (ast.List, ast.Tuple)):
+        base = _const_eval(node.func.value, module)
+        if isinstance(base, str):
+            return base.join(_const_eval(e, module) for e in node.args[0].elts)
     raise ValueError(ast.dump(node))
 
 
